@@ -149,7 +149,58 @@ def generate(tier, rng):
         cases.append({"op": "open", "g": g, "toks": toks, "layout": layout, "enc": rng.choice(ENCODINGS), "crlf": rng.random() < 0.4,
                       "sp": rng.random() < 0.7, "empty": rng.random() < 0.5, "dup": rng.choice(["error", "rename"]),
                       "scale": ["rank", 0]})
+    # malformed stream: valid short-form files with a random edit; the reader's outcome (dictionary or exception
+    # kind) is compared with the reader model, number conversions included
+    for _ in range(400 if tier == "quick" else 12000):
+        g, toks = gen_data(rng, 0.0)
+        mlayout = rng.choice(["short", "long", "elan-long"])
+        txt = write_text(g, toks, mlayout, rng.random() < 0.7)
+        lines = txt.split("\n")
+        for _k in range(rng.choice([1, 1, 2])):
+            u = rng.random()
+            i = rng.randrange(len(lines))
+            if u < 0.2:
+                del lines[i]
+            elif u < 0.35:
+                lines.insert(i, lines[i])
+            elif u < 0.5 and i + 1 < len(lines):
+                lines[i], lines[i + 1] = lines[i + 1], lines[i]
+            elif u < 0.65:
+                j = rng.randint(0, len(lines[i]))
+                lines[i] = lines[i][:j] + rng.choice(['"', '""', ' ', '=', 'x', '.', 'e', '-']) + lines[i][j:]
+            elif u < 0.75:
+                lines = lines[:max(1, i)]
+            elif u < 0.85:
+                lines.insert(i, rng.choice(["", "  ", '"IntervalTier"', '"TextTier"', "1e-05", "3", "abc", "    item [9]:", "        intervals [7]:",
+                                            '        class = "IntervalTier" ', "            xmin = 3 ", '            text = "q" ', "        points [2]:"]))
+            else:
+                lines[i] = rng.choice(["", "x", "1.5.2", "--", "nan", "1_0", "0x10", " 7 "])
+            if not lines:
+                lines = [""]
+        cases.append({"op": "mutshort" if mlayout == "short" else "mutlong", "g": g, "toks": toks, "text": "\n".join(lines), "layout": mlayout, "enc": "utf-8", "crlf": False,
+                      "sp": True, "empty": True, "dup": "error", "scale": ["rank", 0]})
     return cases
+
+
+def _int_or_float(s):
+    return float(s) if ("." in s or "e" in s.lower()) else int(s)
+
+
+def _candidates(text):
+    cands = set()
+    for line in text.replace("\r\n", "\n").split("\n"):
+        pieces = [line]
+        for kw in ('"IntervalTier"', '"TextTier"'):
+            k = line.find(kw)
+            while k != -1:
+                pieces.append(line[:k])
+                k = line.find(kw, k + 1)
+        for pce in pieces:
+            w = pce.strip()
+            cands.add(w)
+            if w and w[0] == '"' and w[-1] == '"':
+                cands.add(w[1:-1].strip())
+    return sorted(cands)
 
 
 def file_text(case):
@@ -179,7 +230,19 @@ def expected_names(names, mode):
     return out
 
 
+def _run_mutshort(case):
+    from praatio.utilities import textgrid_io
+    text = case["text"]
+
+    def f():
+        pd = textgrid_io._parseShortTextgrid(text) if case["op"] == "mutshort" else textgrid_io._parseNormalTextgrid(text)
+        return c01._rdict({"xmin": pd["xmin"], "xmax": pd["xmax"], "tiers": [dict(t, entries=list(t["entries"])) for t in pd["tiers"]]})
+    return core.run_guarded(f)
+
+
 def run(case):
+    if case["op"] in ("mutshort", "mutlong"):
+        return _run_mutshort(case)
     from praatio import textgrid as tgmod
     from praatio.utilities import textgrid_io
     d = os.path.join(core.VERIF, ".work", "c03.%d" % os.getpid())
@@ -221,7 +284,52 @@ def emit(case, r):
     return None
 
 
+def _emit_mutshort(case, r):
+    import re
+    text = case["text"]
+    cands = _candidates(text)
+    if case["op"] == "mutlong":
+        # the long-form reader converts regex groups and the text between the first two '=' of a header line
+        cs = set(cands)
+        for m in re.finditer(r"[\d.]+(?:[eE][-+]?\d+)?", text):
+            cs.add(m.group(0))
+        for m in re.finditer(r"[0-9.]+(?:[eE][-+]?[0-9]+)?", text):
+            cs.add(m.group(0))
+        for line in text.replace("\r\n", "\n").split("\n"):
+            parts = line.split("=")
+            if len(parts) > 1:
+                cs.add(parts[1].strip())
+        cands = sorted(cs)
+    floats, iofs, canon = [], [], []
+    for w in cands:
+        try:
+            v = float(w)
+            floats.append(w)
+            canon.append((w, repr(v + 0.0)))
+        except ValueError:
+            pass
+        try:
+            _int_or_float(w)
+            iofs.append(w)
+        except ValueError:
+            pass
+    tl = lambda l: core.clist([core.ctext(x) for x in l], "text")  # noqa
+    ctab = core.clist(["(%s, %s)" % (core.ctext(a), core.ctext(b)) for a, b in canon], "(text * text)")
+    if "ok" in r:
+        p = r["ok"]
+        rt = {"xmin": c01._numtxt(p["xmin"]), "xmax": c01._numtxt(p["xmax"]),
+              "tiers": [dict(t, xmin=c01._numtxt(t["xmin"]), xmax=c01._numtxt(t["xmax"])) for t in p["tiers"]]}
+        out = "(Ok %s)" % iogen.crtg(rt)
+    elif "err" in r:
+        out = "(Err %s)" % r["err"]
+    else:
+        return []
+    return ["%s %s %s %s %s %s" % ("ParseShortM" if case["op"] == "mutshort" else "ParseLongM", core.ctext(text), tl(floats), tl(iofs), ctab, out)]
+
+
 def emit_multi(case, r):
+    if case["op"] in ("mutshort", "mutlong"):
+        return _emit_mutshort(case, r)
     if "ok" not in r:
         return []
     v = r["ok"]
@@ -249,6 +357,8 @@ def model_expr(case):
 
 
 def py_checks(case, r):
+    if case["op"] in ("mutshort", "mutlong"):
+        return []
     if "ok" not in r:
         return ["harness failure: %s" % r.get("exc", r)]
     v = r["ok"]
@@ -286,6 +396,8 @@ def py_checks(case, r):
 
 
 def classify(case, r):
+    if case["op"] in ("mutshort", "mutlong"):
+        return "mutated-%s/%s" % (case["layout"], "parsed" if "ok" in r else "err:" + r.get("err", "?"))
     out = "crash" if "ok" not in r else ("opened" if "opened" in r["ok"] else "err:" + str(r["ok"].get("open_err")))
     return "%s/%s/%s/empty=%s/dup=%s/%s" % (case["layout"], case["enc"], "crlf" if case["crlf"] else "lf", case["empty"], case["dup"], out)
 
